@@ -242,7 +242,7 @@ PROPS = {
     "C04": {
         "families": [("stop-race", 900, 25000), ("lifecycle", 300, 8000), ("handles", 200, 6000), ("faults", 300, 8000), ("timeouts", 300, 6000)],
         "monitors": ["C04", "C03"],
-        "theorems": ["C04_announce", "C04_nothing_after_stop", "C04_stop_is_a_barrier", "C04_last_drop_drains", "C04_nothing_queued_behind_a_stop_is_handled"],
+        "theorems": ["C04_announce", "C04_nothing_after_stop", "C04_stop_is_a_barrier", "C04_last_drop_drains", "C04_nothing_queued_behind_a_stop_is_handled", "C04_fired_exactly_on_a_return_after_the_last_stopped_hook"],
         "nontrivial": nt_c04,
         "rule": "cases generated from (family, VERIF_SEED, index): several client tasks sending, calling and stopping one actor concurrently (stop, halt, Context::stop from handlers), last-drop of every handle kind at random points, handlers with sleeps so that messages queue up behind a stop request, awaits by value and through &mut before and after termination, every failure kind; non-trivial = an await or halt resolved on an actor that handled messages and whose task ended; distinct = distinct case JSON",
         "assumptions": ["'accepted before / after the stop' is judged by real-time order on the single-threaded executor: a submission whose call returned before the stop request was issued is before it; one issued after the stop call returned is after it; concurrent ones may fall either way",
@@ -318,7 +318,7 @@ PROPS = {
     "C12": {
         "families": [("backpressure", 800, 30000), ("mailbox", 300, 8000), ("restart-bp", 500, 10000)],
         "monitors": ["C12", "C12_nowait"],
-        "theorems": ["C12_bound", "C12_unbounded_never_parks", "C12_termination_unparks", "C12_queue_bound"],
+        "theorems": ["C12_bound", "C12_unbounded_never_parks", "C12_termination_unparks", "C12_queue_bound", "C12_a_parked_send_does_not_return"],
         "nontrivial": nt_c12,
         "rule": "cases generated from (family, VERIF_SEED, index) by harness/src/gen.rs; non-trivial = the actor's mailbox is bounded and at least one waiting-path send returned later than the step that issued it (backpressure was exerted); distinct = distinct case JSON",
         "assumptions": ["'taken out of the mailbox' is witnessed by the handler entry that follows the dequeue in the same step, or by the end of the actor's task (receiver destroyed)"],
